@@ -273,6 +273,11 @@ def host_reexport_cases():
                         items = sorted(items, key=lambda n: not n.startswith("trigger"))
                         cases.append(("import { " + ", ".join(items) + " } from b;\nfn main() { }\n", {"b": b}))
                         want.append("REJECT")
+    # event functions are not `pub`: they cannot be imported either (alone, next to a pub item, through a chain)
+    a = 'pub fn g() { println("a.g"); }\nevent fn tick() { println("a.tick"); }\nfn hidden() { }\nfn main() { }\n'
+    for items, w in ((["g"], "ACCEPT"), (["tick"], "REJECT"), (["g", "tick"], "REJECT"), (["tick", "g"], "REJECT"), (["hidden"], "REJECT")):
+        cases.append(("import { " + ", ".join(items) + " } from b;\nfn main() { " + "".join(f"{i}(); " for i in items) + "}\n", {"b": a}))
+        want.append(w)
     return cases, want
 
 
@@ -331,7 +336,7 @@ def run(ctx):
         got = r["A"].split()[0] if r.get("A") else "?"
         if got != want or (want == "REJECT" and "syn=0" not in r["A"]):
             ctx.violation({"kind": "prog", "main": main, "mods": mods, "analysis": r["A"][:300], "want": want},
-                          f"C15 host re-export: `{main.splitlines()[0]}` with b = `{mods['b'].splitlines()[0]}`: analysis says {r['A'][:60]}, "
+                          f"C15 import visibility: `{main.splitlines()[0]}` with b = `{mods['b'].splitlines()[0]}`: analysis says {r['A'][:60]}, "
                           f"expected {want} (only pub items declared in b can be imported from b)")
             if len(ctx.violations) >= 5:
                 break
